@@ -1,0 +1,7 @@
+//go:build !verif
+// +build !verif
+
+package spg
+
+// verifCanonical is the identity in ordinary builds (see verif_hooks.go).
+func verifCanonical(cl []string) []string { return cl }
